@@ -186,6 +186,49 @@ def _worker_populations(rank, n, tier):
     return st
 
 
+PALETTE = ([100, 200, 300, 2700], [40000, 50000, 60000, 9000], [100, 200, 300, 9000])
+
+
+def _slots(dev):
+    return {'plain': 1, 'strip': dev.n_zones, 'matrix': dev.height * dev.width}[dev.kind]
+
+
+def _worker_shared_colours(rank, n, tier):
+    """Lights of every kind in every name order whose zones, cells and colours are drawn from a palette of two
+    (thorough: three) colours in every way: neighbouring lights and zones share colours, in part or entirely."""
+    st = dict(cases=0, viol={})
+    kinds = ('plain', 'strip1', 'strip2', 'matrix1x1')
+    pal = PALETTE[:2] if tier == 'quick' else PALETTE
+    idx = 0
+    for k in (2, 3):
+        for pop_kinds in itertools.product(kinds, repeat=k):
+            idx += 1
+            if idx % n != rank:
+                continue
+            pop = tuple(KINDS[kd]('L%d' % i) for i, kd in enumerate(pop_kinds))
+            w = world.World(pop)
+            counts = [_slots(d) for d in w.devices]
+            for colouring in itertools.product(range(len(pal)), repeat=sum(counts)):
+                def cap(d, colouring=colouring):
+                    i = w.devices.index(d)
+                    mine = colouring[sum(counts[:i]):sum(counts[:i + 1])]
+                    d.color = list(pal[mine[0]])
+                    d.power = 65535 if mine[0] else 0
+                    d.zones = [list(pal[c]) for c in mine] if d.kind == 'strip' else []
+                    d.cells = [list(pal[c]) for c in mine] if d.kind == 'matrix' else []
+
+                def rep_state(d):
+                    d.color = [7, 7, 7, 3000]
+                    d.power = 65535
+                    d.zones = [[7, 7, 7, 3000] for _ in d.zones]
+                    d.cells = [[7, 7, 7, 3000] for _ in d.cells]
+                st['cases'] += 1
+                bad = round_trip(w, cap, rep_state)
+                if bad:
+                    _note(st, bad)
+    return st
+
+
 LOADED = ['\\', '#', '{', '}', '[', ']', ':', '*', ' ', '%', "'", '-']
 
 
@@ -227,6 +270,7 @@ def run(tier, seed):
         'boundary-combinations': par.run(_worker_combos, (tier,)),
         'populations': par.run(_worker_populations, (tier,)),
         'names': par.run(_worker_names, (tier,)),
+        'shared-colours': par.run(_worker_shared_colours, (tier,)),
     }
     viol = {}
     per = {}
@@ -249,7 +293,8 @@ def run(tier, seed):
         'distinct_nontrivial': total,
         'rule': 'one capture->compile->replay round trip per case: each raw component over all 65536 values (two backgrounds); all 6^4 '
                 'boundary combinations x power x {plain, 2-zone strip, 2x2 matrix} x replay-time states; all populations of <=3 lights over 9 '
-                'light kinds x 3 states x 3 replay-time states; every printable Latin-1 character in 4 name positions x 3 light kinds',
+                'light kinds x 3 states x 3 replay-time states; every printable Latin-1 character in 4 name positions x 3 light kinds; every ordered population of 2..3 lights over '
+                '{plain, 1-zone, 2-zone, 1x1 matrix} x every colouring of all their zones/cells/colours from a palette of 2 (thorough 3) colours',
         'exhaustive': True,
         'round_trips_per_part': per,
         'samples': ['units raw hue 12345 saturation 65535 brightness 1 kelvin 2700 set "Lamp" on "Lamp"'],
